@@ -35,7 +35,7 @@ func genOnce(t *rapid.T) OnceCase {
 		op := OnceOp{K: rapid.SampledFrom([]string{"resolve", "resolve", "resolve", "finish", "finish", "cancel"}).Draw(t, "k")}
 		switch op.K {
 		case "resolve":
-			op.Pre = rapid.IntRange(0, 11).Draw(t, "pre") == 0
+			op.Pre = rapid.IntRange(0, 7).Draw(t, "pre") == 0
 		case "finish":
 			op.Out = rapid.SampledFrom([]string{"value", "err", "err", "ctxerr", "wrapctxerr"}).Draw(t, "out")
 			op.Pick = rapid.IntRange(0, 3).Draw(t, "pick")
@@ -66,6 +66,7 @@ type caller struct {
 	id        int
 	cancel    context.CancelFunc
 	cancelled bool
+	pre       bool // its context was cancelled before Resolve was called
 	returned  bool
 	val       int
 	err       error
@@ -217,7 +218,7 @@ func body16(c *sched.Ctl, cs OnceCase, v *ev.Verdict) {
 			cl.cancel = cancel
 			if op.Pre && !cs.Memo {
 				cancel()
-				cl.cancelled = true
+				cl.cancelled, cl.pre = true, true
 			}
 			c.Go(label, func() {
 				var val int
@@ -230,6 +231,9 @@ func body16(c *sched.Ctl, cs OnceCase, v *ev.Verdict) {
 				hm.Lock()
 				defer hm.Unlock()
 				cl.returned, cl.val, cl.err = true, val, err
+				if cl.pre && err != context.Canceled {
+					fail("once:cancelled-caller-got-result", "caller #%d called Resolve with an already cancelled context and got (%d,%v) instead of context.Canceled", cl.id, val, err)
+				}
 				switch {
 				case err == nil:
 					if !succeeded || val != successVal {
